@@ -372,7 +372,7 @@ class ExprMixin:
             ls, rs = _as_text(l), _as_text(r)
             if ls is not None and rs is not None and (l.k in ('const', 'str') and isinstance(ls, str)) \
                     and (l.k == 'str' or isinstance(l.val, str)):
-                return V('str', ls + rs)
+                return V('str', ls + rs, tuple(x for x in (l, r) if not x.is_const))
             if ls is not None and isinstance(ls, str) and (l.k == 'str' or (l.is_const and isinstance(l.val, str))):
                 return V('str', ls + sqlmod.hole('expr'))
             if rs is not None and (r.k == 'str' or (r.is_const and isinstance(r.val, str))):
@@ -408,7 +408,8 @@ class ExprMixin:
             exact[0] = False
             return sqlmod.hole(_desc(a))
         text = re.sub(r'%%|%[-0-9.]*[sdrif]', sub, template)
-        return C(text) if exact[0] and '⟦' not in text else V('str', text)
+        deps = tuple(a for a in args if not a.is_const)
+        return C(text) if exact[0] and '⟦' not in text else V('str', text, deps)
 
     def str_format(self, template, args, kwargs):
         it = iter(range(len(args)))
@@ -440,7 +441,8 @@ class ExprMixin:
                 return a.a[0]
             return sqlmod.hole(field if field and not field.isdigit() else _desc(a))
         text = re.sub(r'\{\{|\}\}|\{([^{}]*)\}', sub, template)
-        return C(text) if exact[0] and '⟦' not in text else V('str', text)
+        deps = tuple(a for a in list(args) + list(kwargs.values()) if not a.is_const)
+        return C(text) if exact[0] and '⟦' not in text else V('str', text, deps)
 
     # ------------------------------------------------------------- attribute
     def e_Attribute(self, e, st):
